@@ -74,6 +74,61 @@ fn tls_server_on(bind: &str, ident: &str) -> u16 {
     port
 }
 
+/// An impostor: a TLS server that presents the valid certificate of `good.test` (chains to the test root, in date)
+/// but does not hold its key — it signs the handshake with another key. No flag short of accepting invalid
+/// certificates altogether can make a client accept it: `accept_invalid_hostnames` waives the NAME match, not
+/// the proof that the peer owns the certificate it shows (seed C14-seed10). Needs a TLS stack that lets a
+/// server do this: rustls, available in the rustls variant of the harness only.
+#[cfg(feature = "backend-rustls")]
+fn impostor_server() -> Option<u16> {
+    use rustls::pki_types::{CertificateDer, PrivateKeyDer, PrivatePkcs8KeyDer};
+    #[derive(Debug)]
+    struct Fixed(Arc<rustls::sign::CertifiedKey>);
+    impl rustls::server::ResolvesServerCert for Fixed {
+        fn resolve(&self, _hello: rustls::server::ClientHello) -> Option<Arc<rustls::sign::CertifiedKey>> {
+            Some(self.0.clone())
+        }
+    }
+    let cert = crate::tlscert::pem_block(&std::fs::read(certs_dir().join("good.cert.pem")).ok()?, "CERTIFICATE")?;
+    let other_key = crate::tlscert::pem_block(&std::fs::read(certs_dir().join("unknown.key.pem")).ok()?, "PRIVATE KEY")?;
+    let provider = rustls::crypto::CryptoProvider::get_default().cloned().unwrap_or_else(|| Arc::new(rustls::crypto::aws_lc_rs::default_provider()));
+    let key = provider.key_provider.load_private_key(PrivateKeyDer::Pkcs8(PrivatePkcs8KeyDer::from(other_key))).ok()?;
+    let ck = Arc::new(rustls::sign::CertifiedKey::new(vec![CertificateDer::from(cert)], key));
+    let cfg = Arc::new(rustls::ServerConfig::builder_with_provider(provider).with_safe_default_protocol_versions().ok()?.with_no_client_auth().with_cert_resolver(Arc::new(Fixed(ck))));
+    let l = TcpListener::bind("127.0.0.1:0").ok()?;
+    let port = l.local_addr().ok()?.port();
+    std::thread::spawn(move || {
+        l.set_nonblocking(true).ok();
+        let end = Instant::now() + Duration::from_secs(SERVER_LIFETIME_S);
+        while Instant::now() < end {
+            match l.accept() {
+                Ok((mut s, _)) => {
+                    let cfg = cfg.clone();
+                    std::thread::spawn(move || {
+                        s.set_nonblocking(false).ok();
+                        s.set_read_timeout(Some(Duration::from_secs(2))).ok();
+                        if let Ok(mut conn) = rustls::ServerConnection::new(cfg) {
+                            let mut t = rustls::Stream::new(&mut conn, &mut s);
+                            let mut buf = [0u8; 4096];
+                            if t.read(&mut buf).is_ok() {
+                                let _ = t.write_all(b"HTTP/1.1 200 OK\r\nContent-Length: 8\r\nConnection: close\r\n\r\nimpostor");
+                                let _ = t.flush();
+                            }
+                        }
+                    });
+                }
+                Err(_) => std::thread::sleep(Duration::from_millis(2)),
+            }
+        }
+    });
+    Some(port)
+}
+
+#[cfg(not(feature = "backend-rustls"))]
+fn impostor_server() -> Option<u16> {
+    None
+}
+
 /// plain HTTP proxy: answers CONNECT with 200 and relays bytes to `target_port`
 fn connect_proxy(target_port: u16) -> u16 {
     let l = TcpListener::bind("127.0.0.1:0").unwrap();
@@ -316,6 +371,41 @@ pub fn generate_sel(_seed: u64, tier: &str, sink: &mut Sink, tunnels_only: bool)
                             }
                         }
                     }
+                }
+            }
+        }
+    }
+    // the impostor rows (rustls variant only)
+    if !tunnels_only && !SIBLINGS_ONLY.with(|s| s.get()) {
+        if let Some(port) = impostor_server() {
+            std::thread::sleep(Duration::from_millis(30));
+            for (name_ok, aih) in [(true, false), (false, true), (true, true), (false, false)] {
+                for place in ["session", "request"] {
+                    let host = if name_ok { "good.test" } else { "other.test" };
+                    attohttpc::verif_hooks::set_resolver_override(host, vec![std::net::SocketAddr::from(([127, 0, 0, 1], port))]);
+                    let url = format!("https://{}:{}/", host, port);
+                    let mut sess = attohttpc::Session::new();
+                    sess.connect_timeout(Duration::from_secs(6));
+                    sess.read_timeout(Duration::from_secs(6));
+                    sess.proxy_settings(attohttpc::ProxySettings::builder().build());
+                    let res = if place == "session" {
+                        sess.danger_accept_invalid_hostnames(aih);
+                        sess.add_root_certificate(root());
+                        sess.get(&url).send()
+                    } else {
+                        sess.get(&url).danger_accept_invalid_hostnames(aih).add_root_certificate(root()).send()
+                    };
+                    attohttpc::verif_hooks::clear_resolver_overrides();
+                    let o = match &res {
+                        Ok(r) => Err(("accepted-impostor-flags".to_string(), format!("a server that presents the certificate of good.test without holding its key was ACCEPTED (status {}): URL host {}, accept_invalid_hostnames {} set on {}, accept_invalid_certs off", r.status().as_u16(), host, aih, place))),
+                        Err(_) => Ok(()),
+                    };
+                    sink.push(Case {
+                        tags: vec![format!("backend={}", crate::tlscert::backend()), "chain=impostor".into(), format!("name_ok={}", name_ok), "aic=false".into(), format!("aih={}", aih), "root=true".into(), "mode=direct".into(), format!("set_on={}", place), "expect=reject".into()],
+                        op: "nop impostor".into(),
+                        impl_line: "nop".into(),
+                        oracle: o,
+                    });
                 }
             }
         }
